@@ -1,0 +1,12 @@
+//go:build verif
+
+package gostatix
+
+import "github.com/redis/go-redis/v9"
+
+// VerifRedisClient exposes the package-level Redis client to the verification
+// harness (build tag `verif` only) so that it can attach a go-redis hook that
+// records and schedules the commands issued by each operation.
+func VerifRedisClient() *redis.Client {
+	return getRedisClient()
+}
